@@ -96,6 +96,25 @@ func genConfigFacts(repo string) (string, error) {
 		}
 		fmt.Fprintf(&sb, "  (%s, [%s])%s\n", strconv.Quote(n), strings.Join(es, ", "), sep)
 	}
+	sb.WriteString("]\n\n")
+	sb.WriteString("/-- options that assign an object allocated OUTSIDE the closure they return (one object per Option\n    value, shared by every client the value is applied to), with the paths assigned from it.  go/ast. -/\n")
+	sb.WriteString("def captured : List (String × List (List String)) := [")
+	first := true
+	for _, n := range names {
+		var ps []string
+		for _, e := range fps[n] {
+			if e.Captured {
+				ps = append(ps, leanPath(e.Path))
+			}
+		}
+		if len(ps) > 0 {
+			if !first {
+				sb.WriteString(", ")
+			}
+			first = false
+			fmt.Fprintf(&sb, "(%s, [%s])", strconv.Quote(n), strings.Join(ps, ", "))
+		}
+	}
 	sb.WriteString("]\n\nend Opcua.Gen.Config\n")
 	return sb.String(), nil
 }
